@@ -19,10 +19,14 @@ func NewSerial() Workers {
 type SerialJob struct {
 	once sync.Once
 	err  error
+	// done is closed by Done: tasks may be added (and run) until then, so Wait
+	// must not report a result earlier
+	done     chan struct{}
+	doneOnce sync.Once
 }
 
 func (*SerialWorkers) NewJob(_ int) (Job, error) {
-	return &SerialJob{}, nil
+	return &SerialJob{done: make(chan struct{})}, nil
 }
 
 func (*SerialWorkers) Stop() {}
@@ -38,13 +42,17 @@ func (j *SerialJob) Go(f func() error) {
 	}
 }
 
-func (*SerialJob) Done(f func()) {
+func (j *SerialJob) Done(f func()) {
 	if f != nil {
 		f()
 	}
+	j.doneOnce.Do(func() { close(j.done) })
 }
 
+// Wait returns the first error of the job's tasks once Done has been called
+// (same contract as ParallelJob.Wait).
 func (j *SerialJob) Wait() error {
+	<-j.done
 	return j.err
 }
 
